@@ -64,6 +64,7 @@ type pathResult struct {
 	stack     []string
 	model     Model // a model of the final path condition (sampled)
 	prefixLen int
+	forks     map[string]int
 }
 
 // Path is the per-execution exploration state.
@@ -79,6 +80,8 @@ type Path struct {
 	unknown bool
 	inputs  []inputVar
 	cells   []string
+	where   func() string
+	forks   map[string]int
 }
 
 type inputVar struct {
@@ -162,6 +165,12 @@ func (p *Path) decide(cond *Term, why string) bool {
 		return true
 	}
 	// both feasible: fork
+	if p.where != nil {
+		if p.forks == nil {
+			p.forks = map[string]int{}
+		}
+		p.forks[why+" @ "+p.where()]++
+	}
 	sib := make([]decision, len(p.trace)+1)
 	copy(sib, p.trace)
 	sib[len(p.trace)] = decision{K: dBool, B: false}
@@ -320,6 +329,7 @@ type Explorer struct {
 	maxDepth   int
 	hitLimit   string
 	stopOnViol bool
+	forkSites  map[string]int64
 }
 
 func NewExplorer() *Explorer {
@@ -393,6 +403,12 @@ func (e *Explorer) done(r *pathResult) {
 		e.panics[r.msg+where]++
 	}
 	e.witnesses = append(e.witnesses, r.witnesses...)
+	for k, v := range r.forks {
+		if e.forkSites == nil {
+			e.forkSites = map[string]int64{}
+		}
+		e.forkSites[k] += int64(v)
+	}
 	if len(r.witnesses) > 0 && e.stopOnViol {
 		e.stop = true
 	}
